@@ -52,6 +52,128 @@ func runC05(c *core.Ctx, r *core.Reporter) {
 	c05operand(c, r)
 	c05norm(c, r)
 	c05conv(c, r)
+	c05ovf(c, r)
+}
+
+// flowsToComparison: the value, possibly after further arithmetic, is an operand of a comparison.
+func flowsToComparison(v ssa.Value, depth int) bool {
+	if depth > 3 {
+		return false
+	}
+	refs := v.Referrers()
+	if refs == nil {
+		return false
+	}
+	for _, rf := range *refs {
+		switch x := rf.(type) {
+		case *ssa.BinOp:
+			switch x.Op {
+			case token.LSS, token.GTR, token.LEQ, token.GEQ, token.EQL, token.NEQ:
+				return true
+			case token.QUO, token.SUB, token.ADD, token.XOR, token.AND, token.SHR:
+				if flowsToComparison(x, depth+1) {
+					return true
+				}
+			}
+		case *ssa.Convert:
+			if flowsToComparison(x, depth+1) {
+				return true
+			}
+		}
+	}
+	return false
+}
+
+// c05ovf: arithmetic on values of type Fixnum must not wrap silently.
+func c05ovf(c *core.Ctx, r *core.Reporter) {
+	const rule = "C05.ovf"
+	r.Rule(rule, "every +, -, *, << and unary - whose result has the Lisp type Fixnum (64-bit two's complement) and whose operands are not both constants is accompanied by an overflow test: the operands are range-tested before, or the result flows into a comparison that detects the wrap (sign tests, math/bits, comparison with an operand), or the operation is redone in math/big; otherwise (+ most-positive-fixnum 1) silently becomes negative", 20)
+	seen := map[string]int{}
+	for _, fn := range c.ModuleFuncs() {
+		if takesTestingT(fn) || fn.Pkg == nil {
+			continue
+		}
+		for _, b := range fn.Blocks {
+			for _, in := range b.Instrs {
+				var res ssa.Value
+				var ops []ssa.Value
+				opname := ""
+				switch x := in.(type) {
+				case *ssa.BinOp:
+					switch x.Op {
+					case token.ADD, token.SUB, token.MUL, token.SHL:
+						res, ops, opname = x, []ssa.Value{x.X, x.Y}, x.Op.String()
+					}
+				case *ssa.UnOp:
+					if x.Op == token.SUB {
+						res, ops, opname = x, []ssa.Value{x.X}, "neg"
+					}
+				}
+				if res == nil {
+					continue
+				}
+				if !core.IsNamed(res.Type(), core.SlipPath, "Fixnum") {
+					// the same arithmetic done on the machine representation of a fixnum and converted back:
+					// slip.Fixnum(uint64(n) << k)
+					fromFix := false
+					for _, o := range ops {
+						v := o
+						for {
+							if cv, ok := v.(*ssa.Convert); ok {
+								v = cv.X
+								continue
+							}
+							break
+						}
+						if v != o && core.IsNamed(v.Type(), core.SlipPath, "Fixnum") {
+							fromFix = true
+						}
+					}
+					backToFix := false
+					if refs := res.Referrers(); refs != nil {
+						for _, rf := range *refs {
+							if cv, ok := rf.(*ssa.Convert); ok && core.IsNamed(cv.Type(), core.SlipPath, "Fixnum") {
+								backToFix = true
+							}
+						}
+					}
+					if !fromFix || !backToFix {
+						continue
+					}
+				}
+				allConst := true
+				for _, o := range ops {
+					if _, isK := o.(*ssa.Const); !isK {
+						allConst = false
+					}
+				}
+				if allConst {
+					continue
+				}
+				// small constant adjustments of a value that is bounded by construction (len, loop index) are
+				// not Fixnum typed; anything typed Fixnum is a Lisp integer
+				checked := flowsToComparison(res, 0)
+				key := fmt.Sprintf("%s|%s", core.SSAName(fn), opname)
+				seen[key]++
+				if n := seen[key]; n > 1 {
+					key = fmt.Sprintf("%s#%d", key, n)
+				}
+				if checked {
+					r.Hold(rule, key, c.Pos(in.Pos()), "the result flows into a comparison (overflow test)")
+					continue
+				}
+				if ex, ok := ovfExceptions[key]; ok {
+					r.Hold(rule, key, c.Pos(in.Pos()), "accepted by reading: "+ex)
+					continue
+				}
+				if ex, ok := ovfFuncExceptions[core.SSAName(fn)]; ok && !ovfJudgedKeys[key] {
+					r.Hold(rule, key, c.Pos(in.Pos()), "accepted by reading: "+ex)
+					continue
+				}
+				r.Violate(rule, key, c.Pos(in.Pos()), "no overflow test follows and no bound on the operands was found")
+			}
+		}
+	}
 }
 
 // c05conv: machine integers enter math/big through value-preserving conversions.
@@ -157,6 +279,38 @@ func c05conv(c *core.Ctx, r *core.Reporter) {
 			}
 		}
 	}
+}
+
+var ovfExceptions = map[string]string{
+	"slip.(BitVector).AsFixnum|<<":           "documented bit reinterpretation: the first 64 bits of the vector form the fixnum and the boolean result reports truncation",
+	"pkg/cl.(Gensym).Call|+":                 "the gensym counter, not a number computed from the program's data; 2^63 generated symbols are out of reach",
+	"pkg/cl.(IntegerLength).Call|+":          "ta + 1 is taken only for ta < 0, so it cannot exceed 0",
+	"pkg/cl.(IntegerLength).Call|neg":        "-(ta + 1) with ta < 0 lies in 0 .. 2^63-1",
+	"pkg/cl.(Logcount).Call|+":               "a count of at most 64 one-bits",
+	"pkg/cl.(Logcount).Call|+#2":             "a count of at most 64 one-bits",
+	"pkg/cl.(Logcount).Call|+#3":             "a count of at most 64 one-bits",
+	"pkg/cl.(Logcount).Call|-":               "64 minus a count of at most 64",
+}
+
+// ovfFuncExceptions: the rounding divisions compute q = n/d, r = n - q*d and then move q by one and r by d
+// when the remainder has the wrong sign. The product q*d is the one place where a wrapped quotient
+// (most-negative-fixnum / -1) enters and is judged; the adjustments only run with a non-zero remainder,
+// hence |d| >= 2, |q| <= 2^62 and |r| < |d|, so they cannot overflow.
+// ovfJudgedKeys: the sites of those functions where the wrapped value enters; they are judged (and listed as
+// findings with the input that shows the wrong result).
+var ovfJudgedKeys = map[string]bool{
+	"pkg/cl.floor|*":    true,
+	"pkg/cl.ceiling|*":  true,
+	"pkg/cl.truncate|*": true,
+	"pkg/cl.round|*":    true,
+	"pkg/cl.round|neg":  true,
+}
+
+var ovfFuncExceptions = map[string]string{
+	"pkg/cl.floor":    "adjustment of a quotient/remainder pair with a non-zero remainder: |d| >= 2, |q| <= 2^62, |r| < |d|",
+	"pkg/cl.ceiling":  "adjustment of a quotient/remainder pair with a non-zero remainder: |d| >= 2, |q| <= 2^62, |r| < |d|",
+	"pkg/cl.truncate": "r = n - q*d with |q*d| <= |n|",
+	"pkg/cl.round":    "operates on the absolute values after the exact case r = 0 was taken out: |d| >= 2, |q| <= 2^62, 2r <= 2|d|-2; the two places where a wrapped value enters (the first product and the negation of the dividend) are judged separately",
 }
 
 // bigValueEntry: the math/big functions and methods whose integer parameters are the number itself
@@ -357,6 +511,9 @@ func c05norm(c *core.Ctx, r *core.Reporter) {
 	info := p.TypesInfo
 	exact := map[string]bool{"Fixnum": true, "Octet": true, "*Bignum": true, "*Ratio": true, "*SignedByte": true, "*UnsignedByte": true}
 	exactOut := map[string]bool{"Fixnum": true, "*Bignum": true, "*Ratio": true, "Octet": true}
+	machineFloat := map[string]bool{"SingleFloat": true, "DoubleFloat": true, "ShortFloat": true}
+	cmpLossy := map[string]bool{}
+	cmpSeen := map[string]int{}
 	tname := func(t types.Type) string {
 		if t == nil {
 			return "?"
@@ -522,6 +679,23 @@ func c05norm(c *core.Ctx, r *core.Reporter) {
 					for _, pre := range leavesOf(before, map[string]string{}, bind) {
 						leaves = append(leaves, leavesOf(ic.Body, pre, bind)...)
 					}
+					// an exact operand paired with a machine float: the promotion decides what the comparison
+					// predicates (= < > ...) compare, and a fixnum above 2^53 (2^24) does not survive it
+					if (exact[t0] && machineFloat[t1]) || (machineFloat[t0] && exact[t1]) {
+						ft := t1
+						if machineFloat[t0] {
+							ft = t0
+						}
+						lossy := false
+						for _, leaf := range leaves {
+							a, b := leaf[res[0]], leaf[res[1]]
+							if machineFloat[a] && machineFloat[b] {
+								lossy = true
+							}
+						}
+						cmpLossy[ft] = cmpLossy[ft] || lossy
+						cmpSeen[ft]++
+					}
 					if !(exact[t0] && exact[t1]) {
 						continue
 					}
@@ -547,4 +721,14 @@ func c05norm(c *core.Ctx, r *core.Reporter) {
 		r.Decide(outerSeen[nt], rule, fmt.Sprintf("slip.NormalizeNumber|first operand %s arm exists", nt), c.Pos(outer.Pos()), fmt.Sprintf("%v", outerSeen[nt]))
 	}
 	r.Count("norm.exact_pairs", nPairs)
+	const cmp = "C05.cmp"
+	r.Rule(cmp, "the promotion that the numeric comparison predicates apply to an exact operand (fixnum, bignum, ratio) and a machine float does not convert the exact operand to that float format: an integer above 2^53 (2^24 for single floats) is rounded by the conversion, so = holds between numbers that differ and <, > miss the difference", 2)
+	var fts []string
+	for ft := range cmpSeen {
+		fts = append(fts, ft)
+	}
+	sort.Strings(fts)
+	for _, ft := range fts {
+		r.Decide(!cmpLossy[ft], cmp, "slip.NormalizeNumber|(exact, "+ft+")", c.Pos(outer.Pos()), fmt.Sprintf("%d arms pair an exact type with %s; the exact operand is converted to %s: %v", cmpSeen[ft], ft, ft, cmpLossy[ft]))
+	}
 }
